@@ -10,15 +10,16 @@ tvars == <<pinvars, l>>
 
 IsEvent(op) == l <= Len(TraceLog) /\ TraceLog[l].op = op /\ l' = l + 1
 E == TraceLog[l]
+F == IF "fault" \in DOMAIN E THEN E.fault ELSE FALSE      \* an environment fault hit this call (allocation-failure sweeps)
 
 TReset      == IsEvent("reset") /\ prepT' = None /\ prepD' = None /\ prepL' = None /\ es' = 0
                                 /\ phase' = "fresh" /\ atStart' = TRUE
-TSetType    == IsEvent("settype")       /\ SetType(E.t, E.ret, E.es)
-TSetDigest  == IsEvent("setdigest")     /\ SetDigest(E.rightlen, E.allhex, E.eq, E.ret, E.es)
-TSetLen     == IsEvent("setlen")        /\ SetLen(E.l, E.ret, E.es)
-TValidate   == IsEvent("validate_lead") /\ ValidateLead(E.leadOk, E.ret, E.es, E.pos)
-TReadLead   == IsEvent("read_lead")     /\ ReadLead(E.leadOk, E.ret, E.es)
-TReadHeader == IsEvent("read_header")   /\ ReadHeader(E.sealed, E.wf, E.ret, E.es)
+TSetType    == IsEvent("settype")       /\ SetTypeX(E.t, E.ret, E.es, F)
+TSetDigest  == IsEvent("setdigest")     /\ SetDigestX(E.rightlen, E.allhex, E.eq, E.ret, E.es, F)
+TSetLen     == IsEvent("setlen")        /\ SetLenX(E.l, E.ret, E.es, F)
+TValidate   == IsEvent("validate_lead") /\ ValidateLeadX(E.leadOk, E.ret, E.es, E.pos, F)
+TReadLead   == IsEvent("read_lead")     /\ ReadLeadX(E.leadOk, E.ret, E.es, F)
+TReadHeader == IsEvent("read_header")   /\ ReadHeaderX(E.sealed, E.wf, E.ret, E.es, F)
 TRewind     == IsEvent("rewind")        /\ Rewind(E.es)
 TReinit     == IsEvent("reinit")        /\ Reinit(E.ret, E.es)
 
